@@ -42,6 +42,8 @@ impl Qibla {
         let x = f64::from(coords.longitude).to_radians() - Self::KAABA_LONGITUDE.to_radians();
         let y = lat_rads.cos() * Self::KAABA_LATITUDE.to_radians().tan() - lat_rads.sin() * x.cos();
         let degrees = x.sin().atan2(y).to_degrees();
+        // atan2 can round to exactly -180 (due south on the Kaaba's antimeridian); keep (-180, 180].
+        let degrees = if degrees <= -180. { degrees + 360. } else { degrees };
         Self { coords, degrees }
     }
 
